@@ -577,6 +577,8 @@ def execute(world, *, problem=None, solver=None, params=None, reuse_solver=False
             # solve() also takes no start (None = the origin clipped to the box / zero multipliers) and scalars
             if x0_given or y0_given:
                 sf = {k_: v_ for k_, v_ in sf.items() if not ((k_ == "x" and x0_given) or (k_ == "y" and y0_given))}
+            if sf.get("x") == "int" and np.all(x0 == np.round(x0)) and np.all(np.abs(x0) < 2.0**62):
+                ex.x0_arg = x0.astype(np.int64)  # a start written with integer literals
             xa = None if sf.get("x") == "none" else (float(x0[0]) if sf.get("x") == "scalar" and x0.size else ex.x0_arg)
             ya = None if sf.get("y") == "none" else (float(y0[0]) if sf.get("y") == "scalar" and y0.size else ex.y0_arg)
             r = solver.solve(xa, ya)
